@@ -171,7 +171,15 @@ def analyse_pass1(res, tags, meta):
             if body_t is None and clause_t is not None and clause_t.get('kind') == 'lemma':
                 caller = clause_t['fn']
             f['fn'] = caller
-            f['detail'] = 'callee precondition ' + (clause_t['clause'] if clause_t and clause_t.get('kind') == 'requires' else '(std/env)')
+            if clause_t and clause_t.get('kind') == 'requires':
+                f['detail'] = 'callee precondition ' + clause_t['clause']
+            else:
+                envp = [t['props'] for s, t in stags if t.get('kind') in ('prelude', 'item') and t.get('props')]
+                if envp:
+                    f['props_override'] = envp[0]
+                envsp = [s for s, t in stags if t.get('kind') in ('prelude', 'item') and s.get('text')]
+                txt = ' '.join((envsp[0]['text'][0].get('text', '') if envsp else '').split())
+                f['detail'] = 'callee precondition (std/env)' + ((': ' + txt[:160]) if txt else '')
             if clause_t is not None and clause_t.get('kind') == 'lemma' and body_t is None:
                 f['obligation'] = clause_t['clause']
                 f['props'] = clause_t.get('props', [])
@@ -206,7 +214,9 @@ def analyse_pass1(res, tags, meta):
     for lm in meta['lemmas']:
         fprops[lm['name']] = lm['props']
     for f in failures:
-        if f['props'] is None:
+        if f.get('props_override'):
+            f['props'] = f['props_override']
+        elif f['props'] is None:
             f['props'] = fprops.get(f['fn'], [])
     if res['rc'] != 0 and not failures and not mach:
         mach.append({'message': 'verus exited %d without diagnostics' % res['rc'], 'rendered': res['stderr'][-3000:], 'kind': 'rc'})
